@@ -106,8 +106,10 @@ Definition loop_atomic_ok (e : env) (k : ckind) (l : lkind) (o c m n : Z) : Prop
    (makeLoopAtomic), Atomic / lookaround child, PLAIN capture child (u = -1), last child of a
    concatenation, every branch of an alternation, both branches of the two conditionals (and the
    condition of an expression conditional, which reduceExpressionConditional walks), and the
-   Atomic wrapper the walk puts around a trailing alternation / loop / conditional.
-   NOT covered: the descent into Loop / Lazyloop bodies (tree.go:811-829).
+   Atomic wrapper the walk puts around a trailing alternation / loop / conditional; a Lazyloop's maximum
+   lowered to its minimum (tree.go:811-812) and the descent into a loop whose maximum is 1 (815-821).
+   NOT covered: the descent to the last expression of a loop with a larger maximum
+   (FindLastExpressionInLoopForAutoAtomic, tree.go:823-827).
    A balancing capture (u <> -1) is deliberately absent: the rule is FALSE there
    (RewriteProofs.rw_capture_balancing_not_heq). *)
 Section Ends.
@@ -128,6 +130,9 @@ Inductive ends_to : node -> node -> Prop :=
     ends_to (NBackRefCond o g y n) (NBackRefCond o g y' n')
 | ET_expr_cond o c c' y y' n n' : ends_to c c' -> ends_to y y' -> ends_to_opt n n' ->
     ends_to (NExprCond o c y n) (NExprCond o c' y' n')
+| ET_lazyloop_min o m n r : 0 <= m <= n -> m < INF -> ends_to (NLoop true o m n r) (NLoop true o m m r)
+| ET_loop_one lazy o m r r' : m = 0 \/ m = 1 -> ends_to r r' -> ends_to (NLoop lazy o m 1 r) (NLoop lazy o m 1 r')
+| ET_trans a b c : ends_to a b -> ends_to b c -> ends_to a c
 with ends_to_list : list node -> list node -> Prop :=
 | ETL_nil : ends_to_list [] []
 | ETL_cons t t' l l' : ends_to t t' -> ends_to_list l l' -> ends_to_list (t :: l) (t' :: l')
